@@ -808,6 +808,7 @@ func ruleKEYSEP(c *Checker) {
 		c.anchorFail("Machine.split / sendCipher / recvCipher / initiator")
 		return
 	}
+	ruleEphemeralFresh(c)
 	// ---- KEYSEP ----
 	initWithSalt := w.Func("(*mailbox.cipherState).InitializeKeyWithSalt")
 	if initWithSalt == nil {
@@ -1164,4 +1165,66 @@ func ruleKeySchedule(c *Checker, rule string) {
 		c.decide(bad == "" && len(sites) >= 4, rule, "InitializeKey|called from the key schedule only", initKey.Pos(), fmt.Sprintf("%d call sites: InitializeKeyWithSalt, rotateKey, mixKey, InitializeSymmetric", len(sites)),
 			"InitializeKey is also called from "+bad+": a cipher state can be (re)keyed outside the key schedule - with a stale or all-zero key, and with the nonce reset under a key that was already used")
 	}
+}
+
+// ruleEphemeralFresh: the transport keys of two sessions between the same two static keys differ
+// only through the ephemeral keys, and the nonces restart at 0 in every session: an ephemeral key
+// that is used for a second handshake makes the second session accept the recorded records of
+// the first. So the generator a machine runs with is the package default - btcec.NewPrivateKey,
+// assigned nowhere else - and no production code configures another one (the config field exists
+// for the tests' deterministic vectors).
+func ruleEphemeralFresh(c *Checker) {
+	w := c.w
+	fGen := w.Field("mailbox.BrontideMachineConfig.EphemeralGen")
+	nbm := mboxFunc(c, "mailbox.NewBrontideMachine")
+	if fGen == nil || nbm == nil {
+		c.anchorFail("mailbox.BrontideMachineConfig.EphemeralGen / NewBrontideMachine")
+		return
+	}
+	var glob *ssa.Global
+	if p := w.Prog.ImportedPackage(w.Pkgs[targetMbox].PkgPath); p != nil {
+		glob, _ = p.Members["ephemeralGen"].(*ssa.Global)
+	}
+	bad := ""
+	n := 0
+	for _, st := range w.Stores(fGen) {
+		if strings.HasSuffix(w.Fset.Position(instrPos(st)).Filename, "_test.go") {
+			continue
+		}
+		n++
+		okk := false
+		if st.Parent() == nbm {
+			if u, ok := st.Val.(*ssa.UnOp); ok && u.Op == token.MUL && glob != nil && u.X == ssa.Value(glob) {
+				okk = true
+			}
+		}
+		if !okk {
+			bad = fnName(st.Parent()) + " at " + w.pos(instrPos(st))
+		}
+	}
+	c.decide(bad == "", "KEYSEP", "ephemeral|no production code configures an ephemeral key generator", token.NoPos, fmt.Sprintf("%d store(s): the nil default in NewBrontideMachine", n),
+		"the ephemeral key generator of a handshake machine is set by "+bad+": unless it returns a new random key on every call, two sessions derive the same transport keys and recorded records of one are accepted in the other")
+	// the default generator
+	okDef, nSt := glob != nil, 0
+	if glob != nil && glob.Referrers() == nil {
+		// package-level globals carry no referrer list: scan
+		for _, fn := range w.Funcs {
+			if w.pkgShort(fn) != targetMbox || strings.HasSuffix(w.Fset.Position(fn.Pos()).Filename, "_test.go") {
+				continue
+			}
+			allInstrs(fn, func(in ssa.Instruction) {
+				st, ok := in.(*ssa.Store)
+				if !ok || st.Addr != ssa.Value(glob) {
+					return
+				}
+				nSt++
+				f, _ := st.Val.(*ssa.Function)
+				if f == nil || f.Name() != "NewPrivateKey" || f.Pkg == nil || !strings.Contains(f.Pkg.Pkg.Path(), "btcec") {
+					okDef = false
+				}
+			})
+		}
+	}
+	c.decide(okDef && nSt == 1, "KEYSEP", "ephemeral|the default generator is btcec.NewPrivateKey", token.NoPos, "assigned once, at its declaration",
+		fmt.Sprintf("the package's ephemeral key generator is not (only) btcec.NewPrivateKey (%d assignments)", nSt))
 }
